@@ -1,6 +1,8 @@
 package hx
 
 import (
+	"fmt"
+	"os"
 	"time"
 
 	"github.com/anishathalye/porcupine"
@@ -27,6 +29,20 @@ func CheckLin(m porcupine.Model, h *History, timeout time.Duration) string {
 	if len(h.Ops) == 0 {
 		return "ok"
 	}
+	t0 := time.Now()
+	defer func() {
+		if d := time.Since(t0); d > 2*time.Second {
+			if f := os.Getenv("VERIF_SLOWLOG"); f != "" {
+				if fh, err := os.OpenFile(f, os.O_APPEND|os.O_CREATE|os.O_WRONLY, 0o644); err == nil {
+					fmt.Fprintf(fh, "slow porcupine check: %v, %d ops\n", d, len(h.Ops))
+					for _, op := range h.Ops {
+						fmt.Fprintf(fh, "  c%d [%d,%d] %+v -> %+v\n", op.ClientId, op.Call, op.Return, op.Input, op.Output)
+					}
+					fh.Close()
+				}
+			}
+		}
+	}()
 	switch porcupine.CheckOperationsTimeout(m, h.Ops, timeout) {
 	case porcupine.Ok:
 		return "ok"
